@@ -4,6 +4,8 @@ import (
 	"bytes"
 	"fmt"
 	"reflect"
+	"sync"
+	"sync/atomic"
 	"testing"
 
 	"github.com/bluenviron/gomavlib/v3/pkg/dialect"
@@ -189,6 +191,43 @@ func TestC17(t *testing.T) {
 			rep.Count("lookups", 270001)
 		}
 	}
+	// lookups from several goroutines at once on one ReadWriter (a Node shares it between all its channels)
+	for _, d := range all {
+		rw := rws[d.Name]
+		if rw == nil || len(d.Dialect.Messages) < 2 {
+			continue
+		}
+		var wg sync.WaitGroup
+		var bad int32
+		for g := 0; g < 8; g++ {
+			wg.Add(1)
+			gr := vh.Sub(seed, fmt.Sprintf("c17-conc-%s-%d", d.Name, g))
+			go func() {
+				defer wg.Done()
+				for i := 0; i < vh.Pick(20000, 300000); i++ {
+					m := d.Dialect.Messages[gr.Intn(len(d.Dialect.Messages))]
+					id := m.GetID()
+					if i%5 == 0 {
+						id ^= 0x800000 // an absent id
+					}
+					mrw := rw.GetMessage(id)
+					if id == m.GetID() {
+						if mrw == nil || mrw.Message.GetID() != id {
+							atomic.AddInt32(&bad, 1)
+						}
+					} else if mrw != nil && mrw.Message.GetID() != id {
+						atomic.AddInt32(&bad, 1)
+					}
+				}
+			}()
+		}
+		wg.Wait()
+		rep.Eval(8 * vh.Pick(20000, 300000))
+		rep.Count("concurrent_lookups", 8*vh.Pick(20000, 300000))
+		if bad > 0 {
+			rep.Violation(fmt.Sprintf("dialect=%s what=lookup:concurrent", d.Name), fmt.Sprintf("%d lookups made concurrently from several goroutines returned the codec of another message", bad), nil)
+		}
+	}
 	rep.Count("dialect_messages", totalMsgs)
 	rep.Set("dialects", len(all))
 
@@ -328,6 +367,16 @@ func TestC17(t *testing.T) {
 				continue
 			}
 			d.Messages = withBad
+			if k%2 == 1 && len(msgs) >= 2 {
+				// the defect arrives by replacing an entry in place (same slice, same length)
+				d.Messages = append([]message.Message{}, msgs...)
+				_, _ = safeInit(&dialect.ReadWriter{Dialect: d})
+				d.Messages[r.Intn(len(d.Messages))] = inject
+				if class == "duplicate-id" {
+					// make sure the duplicate is really there: copy another entry's id holder
+					d.Messages[0] = d.Messages[len(d.Messages)-1]
+				}
+			}
 			rep.Count("reinit_cases", 1)
 			if err, p := safeInit(&dialect.ReadWriter{Dialect: d}); err == nil && p == nil {
 				rep.Violation("dialect=user what=accepts:"+class+":reinit", "a Dialect value that became invalid ("+class+") after a first successful initialisation was accepted", class)
